@@ -82,7 +82,7 @@ CHECKS = {
    technique=TECH+"BFS over builder-call histories with state deduplication, oracle = reference model + parse-back",
    ref="3.10"),
  "C11": dict(
-   text="Every template over the 9-symbol alphabet {a 1 2 ? $ space ' \" \\} up to length 6 (quick) / 7 (thorough) x value lists of length 0..3 x 3 backends through the real Expr::cust_with_values: to_string, build (SQL text and returned values) and inject_parameters(build) are compared with an independent reference expander written from the property's words (quote-aware scan, doubled mark = literal, ? positional, $n numbered). Out-of-domain templates (missing value, $1a) must only terminate.",
+   text="Every template over the 10-symbol alphabet {a 1 2 ? $ space ' \" \\ é} up to length 6 (quick) / 7 (thorough) x value lists of length 0..3 x 3 backends through the real Expr::cust_with_values: to_string, build (SQL text and returned values) and inject_parameters(build) are compared with an independent reference expander written from the property's words (quote-aware scan, doubled mark = literal, ? positional, $n numbered). Out-of-domain templates (missing value, $1a) must only terminate.",
    note="Trusted: the 100-line reference expander. inject_parameters over whole statements (values with trailing backslashes etc.) is covered by C02's statement space, not here.",
    technique=TECH+"trie of all templates over an alphabet up to a length bound x value-list lengths, oracle = reference expander",
    ref="3.11"),
